@@ -32,7 +32,8 @@ def B2_for(*mods):
 
 prop("C01",
      lambda tier: [tls.rule_A5, B1_for("decryptor", "session"), tables.rule_T4, tables.rule_T3_classes, tables.rule_T3_iv, tls.rule_types, tls.rule_A4, tls.rule_PAD,
-                   tls.rule_T10, tls.rule_D1, output.rule_A8, tcp.rule_tls_causality],
+                   tls.rule_T10, tls.rule_D1, output.rule_A8, tcp.rule_tls_causality, output.rule_T7_split, output.rule_A7, B2_for("output_builder", "session"),
+                   tcp.rule_framing, tcp.rule_A9],
      "Decides the necessary structure of per-record state and dispatch: sequence number read/increment pairing, CBC residue chaining from ciphertext, RC4 contexts "
      "created once, key switch at Finished assigning key+IV+seq of one direction (A5); direction arms are mirror images (B1); decrypt() dispatch equals the record "
      "protection of every valid (version, bulk) pair, by finite-domain guard evaluation (T4); parser/decryptor/IV-length tables agree (T3); record / handshake type "
@@ -53,7 +54,8 @@ prop("C02",
      ["cryptography's AEAD implementations; struct.unpack_from semantics"], controls=["c02-merge-without-ts"])
 
 prop("C03",
-     lambda tier: [escape.rule_A1, escape.rule_A1_records, escape.rule_A1_quic_packets, progress.rule_A2, tls.rule_A4, tls.rule_D1, state.rule_D6_ownership],
+     lambda tier: [escape.rule_A1, escape.rule_A1_records, escape.rule_A1_quic_packets, progress.rule_A2, tls.rule_A4, tls.rule_D1, state.rule_D6_ownership,
+                   tcp.rule_framing, B2_for("session")],
      "Decides 'never makes the run fail' as an interprocedural may-raise analysis: every site of classes S1–S6 (raise, index/key lookup, non-total external call, "
      "possibly-unbound local, attribute not set by every constructor path, data-dependent division) reachable from an iteration of run()'s capture loop or "
      "finalisation loops is covered by a handler inside that iteration (A1), per record for TLS (A1r), the dissector absorbs its own faults (A1q); every data-driven "
@@ -97,7 +99,8 @@ prop("C07",
      ["dpkt timestamp conversion"], controls=["c07-handshake-time-last"])
 
 prop("C08",
-     lambda tier: [tcp.rule_tls_causality, output.rule_A8, tcp.rule_framing, escape.rule_A1_records, quic.rule_D8, output.rule_A7],
+     lambda tier: [tcp.rule_tls_causality, output.rule_A8, tcp.rule_framing, escape.rule_A1_records, quic.rule_D8, output.rule_A7, output.rule_T7_split,
+                   B2_for("output_builder", "session"), escape.rule_A1],
      "Decided as the classical argument for online algorithms — every stage is causal, append-only and a left fold, hence the export of a prefix is a prefix of the "
      "export — each premise being a structural obligation: single in-order pass without look-ahead (CAUS), append-only channels consumed in order (A8), records released "
      "only when whole and buffers cleared (FR + loop-replay lemma), a fault in record i cannot discard output of records < i (A1r), QUIC groups closed exactly at "
@@ -135,7 +138,7 @@ prop("C12",
      ["dpkt.pcapng / dpkt.pcap block classes"], controls=["c12-swap-le-class"])
 
 prop("C13",
-     lambda tier: [meta.rule_D5],
+     lambda tier: [meta.rule_D5, quic.rule_D8, quic.rule_frame_attrs],
      "Decides the effect set of the metadata switch: every statement control-dependent on it (post-dominator based edge dominance) only appends to the output "
      "channel (TLS) or selects CRYPTO/VN bytes (QUIC); application-record handlers, alert/handshake handling and the STREAM selection are not control-dependent "
      "on it; metadata records are appended verbatim; the switch's provenance is args.metadata.", ["none beyond the trusted base"],
